@@ -103,7 +103,7 @@ func genSpec(rng *rand.Rand, prop string, i int) *e2eSpec {
 			addFault([]string{fPollFail, fPollLost, fLostAnswer, fCorrupt, fFailPart, fRefuse}[rng.Intn(6)])
 		}
 		for k := 0; k < rng.Intn(4); k++ {
-			sp.Mutations = append(sp.Mutations, mutation{AtAction: 3 + rng.Intn(150), File: rng.Intn(nf), Kind: []string{"rewrite", "append", "replace", "touch"}[rng.Intn(4)]})
+			sp.Mutations = append(sp.Mutations, mutation{AtAction: 3 + rng.Intn(150), File: rng.Intn(nf), Kind: []string{"rewrite", "append", "replace", "touch", "rewrite-same-second"}[rng.Intn(5)]})
 		}
 		if rng.Intn(2) == 0 {
 			sp.SenderCrashAt = append(sp.SenderCrashAt, 3+rng.Intn(150))
